@@ -278,6 +278,8 @@ class ImgFn:
                 res = ('ptr', bp[1], bp[2] + iv, bp[3])
         elif k == 'DeclRefExpr' and isinstance(self.bind.get(e0.get('referencedDecl', {}).get('id')), tuple):
             res = self.bind[e0['referencedDecl']['id']]
+            if res[0] == 'opaque':
+                return None
         elif k == 'DeclRefExpr':
             did = e0.get('referencedDecl', {}).get('id')
             p = self.params.get(did)
@@ -430,8 +432,25 @@ def check_write_image(ctx, tu, f):
                                 raise Undecided('pointer `%s` is advanced under a condition' % tu.show(tu.kids(x)[0]))
                             bumped.setdefault(did, []).append((x, where))
                 for q_ in img.loops[vid].get('inc_extra', []):
-                    if not any(q_ is x or q_.get('id') == x.get('id') for xs_ in bumped.values() for x, w_ in xs_):
-                        raise Undecided('loop increment `%s` is not modelled' % tu.show(q_))
+                    if any(q_ is x or q_.get('id') == x.get('id') for xs_ in bumped.values() for x, w_ in xs_):
+                        continue
+                    # a running integer: v += K once per iteration of a unit-step loop  ->  v = start + K * iteration
+                    did_ = tu.ref_decl(tu.kids(q_)[0]) if q_.get('kind') in ('CompoundAssignOperator', 'UnaryOperator') else None
+                    cur_ = img.locals.get(did_)
+                    if isinstance(cur_, Poly) and img.loops[vid].get('step', 1) == 1 and 'value' not in img.loops[vid]:
+                        if q_.get('kind') == 'UnaryOperator' and q_.get('opcode') in ('++', '--'):
+                            k_ = Poly.const(1 if q_['opcode'] == '++' else -1)
+                        elif q_.get('opcode') in ('+=', '-='):
+                            k_ = img.ev().ev(tu.kids(q_)[1])
+                            k_ = -k_ if (k_ is not None and q_['opcode'] == '-=') else k_
+                        else:
+                            k_ = None
+                        other_writes = [y for y in tu.walk(b) if y.get('kind') in ('BinaryOperator', 'CompoundAssignOperator', 'UnaryOperator')
+                                        and y.get('opcode') in ('=', '+=', '-=', '++', '--') and tu.ref_decl(tu.kids(y)[0]) == did_]
+                        if k_ is not None and k_.const_value() is not None and not other_writes:
+                            img.locals[did_] = cur_ + Poly.atom(('sym', img.loops[vid]['name'])) * k_.const_value()
+                            continue
+                    raise Undecided('loop increment `%s` is not modelled' % tu.show(q_))
                 for did, xs in bumped.items():
                     x0, where = xs[0]
                     if len(xs) != 1 or x0.get('opcode') not in ('+=', '++'):
@@ -506,11 +525,10 @@ def check_write_image(ctx, tu, f):
                                 tu.callee_fn(i0) is not None and tu.body(tu.callee_fn(i0)) is not None and \
                                 tu.sd(i0).get('ct', '').rstrip().endswith('*'):
                             rv = inline_helper(i0, stack)
-                            if rv is None:
-                                raise Undecided('value returned by helper `%s` has no normal form' % tu.show(i0))
-                            img.locals[vd['id']] = rv
-                            img.decl_stack[vd['id']] = list(stack)
-                            continue
+                            if rv is not None:
+                                img.locals[vd['id']] = rv
+                                img.decl_stack[vd['id']] = list(stack)
+                            continue          # a pointer without a normal form (e.g. FILE *) stays unknown
                         pv = img.ptr_value(init)
                         if pv is not None:
                             img.locals[vd['id']] = pv
@@ -619,7 +637,10 @@ def check_write_image(ctx, tu, f):
                 reads.append((bp, ix, n, list(stack)))
                 return
             if k == 'CallExpr' and tu.sd(n).get('q') in ('fwrite', 'std::fwrite'):
-                fwrites.append((n, list(stack)))
+                a__ = tu.call_parts(n)[2]
+                # operands are evaluated here, where the parameters of an enclosing helper are still bound
+                fwrites.append((n, list(stack), img.ptr_value(a__[0]) if a__ else None,
+                                img.ev().ev(a__[1]) if len(a__) > 1 else None, img.ev().ev(a__[2]) if len(a__) > 2 else None))
                 return
             if k == 'CallExpr' and tu.sd(n).get('q', '').startswith(UTIL) and tu.callee_fn(n) is not None and \
                     tu.body(tu.callee_fn(n)) is not None and tu.sd(n).get('ct', 'void') == 'void':
@@ -639,11 +660,10 @@ def check_write_image(ctx, tu, f):
                     v = img.ptr_value(a)
                     if v is None:
                         v = img.ev().ev(a)
-                    if v is None:
-                        raise Undecided('argument `%s` of helper %s has no normal form' % (tu.show(a), callee['q']))
                     if isinstance(v, tuple) and v[0] == 'alloc':
                         raise Undecided('allocation passed directly to a helper')
-                    img.bind[p_['id']] = v
+                    # an argument without a normal form (file name, FILE *) only matters if an index depends on it
+                    img.bind[p_['id']] = v if v is not None else ('opaque',)
                 walk(tu.body(callee), stack)
                 rets = [r for r in tu.walk(tu.body(callee)) if r.get('kind') == 'ReturnStmt' and tu.kids(r)]
                 if len(rets) == 1:
@@ -688,6 +708,9 @@ def check_write_image(ctx, tu, f):
             y, x, c = stack
             if any(loops[v].get('step', 1) != 1 for v in stack):
                 raise Undecided('strided loop without a span loop inside it')
+            # the column loop and the component loop may be nested either way round (component-major conversion)
+            if loops[x]['count'] == Poly.const(N) and loops[c]['count'] == sx and sx != Poly.const(N):
+                x, c = c, x
             return {'y': ('sym', loops[y]['name']), 'v': None, 'x': ('sym', loops[x]['name']), 'c': ('sym', loops[c]['name']),
                     'ycount': loops[y]['count'], 'xcount': loops[x]['count'], 'ccount': loops[c]['count'], 'span': None}
         if len(stack) == 4 and span_of(stack[1], stack[2]) is None and loops[stack[0]].get('step', 1) > 1:
@@ -792,12 +815,9 @@ def check_write_image(ctx, tu, f):
             good = False
             break
     # ---- rows written straight from the source image (all components of every pixel are stored, in order)
-    direct = [(fw_, st_) for fw_, st_ in fwrites if (img.ptr_value(tu.call_parts(fw_)[2][0]) or (None, None))[1] in pix_param]
+    direct = [fwt for fwt in fwrites if (fwt[2] or (None, None))[1] in pix_param]
     if direct and not [r for r in reads if r[0][0] == 'ptr' and r[0][1] in pix_param] and len(fwrites) == 1:
-        fw_, fstack = direct[0]
-        a_ = tu.call_parts(fw_)[2]
-        fp = img.ptr_value(a_[0])
-        e1, e2 = img.ev().ev(a_[1]), img.ev().ev(a_[2])
+        fw_, fstack, fp, e1, e2 = direct[0]
         unit = fp[3]
         per_pixel = psz // unit if unit and psz % unit == 0 else None
         if e1 is None or e2 is None or per_pixel is None:
@@ -1059,10 +1079,7 @@ def check_write_image(ctx, tu, f):
     if len(fwrites) != 1:
         ctx.undecided(R, inst, 'expected one fwrite, found %d' % len(fwrites), tu.fn_loc(f))
         return
-    fw, fstack = fwrites[0]
-    a = tu.call_parts(fw)[2]
-    fp = img.ptr_value(a[0])
-    e1, e2 = img.ev().ev(a[1]), img.ev().ev(a[2])
+    fw, fstack, fp, e1, e2 = fwrites[0]
     if fp is None or e1 is None or e2 is None:
         ctx.undecided(R, inst, 'fwrite arguments have no normal form', tu.loc(fw))
         good = False
@@ -1557,6 +1574,7 @@ class JsonFlow:
         self.undec = {}
         self.memo = {}
         self.alias = set()       # ids of reference members (of writer helper objects) bound to the log stream
+        self.strvals = {}        # std::string variables / parameters whose text was assembled in a string stream: decl id -> tokens
         self.ops = set()
 
     # ---- classification
@@ -1584,6 +1602,33 @@ class JsonFlow:
                 return rets[0]          # a captured variable: the lambda body names the enclosing function's stream
             e = tu.strip(obj if obj is not None else args[0])
         return self.decl_of(e) if e is not None else None
+
+    def string_tokens(self, callee):
+        """token list of the std::string a function returns when it is `S.str()` of a local string stream that only
+        receives insertions on a straight-line path; None otherwise"""
+        tu = self.tu
+        g = tu.cfg(callee)
+        if g is None or g.back_edges() or any(len([x for x in b.succ if x is not None]) > 1 for b in g.blocks.values()):
+            return None
+        rets = [r for b, i, r in g.stmts() if r.get('kind') == 'ReturnStmt' and tu.kids(r)]
+        if len(rets) != 1:
+            return None
+        sid = None
+        for x in tu.walk(rets[0]):
+            if x.get('kind') == 'CXXMemberCallExpr' and tu.sd(x).get('q', '').split('::')[-1] == 'str' and tu.call_parts(x)[1] is not None:
+                sid = tu.ref_decl(tu.call_parts(x)[1])
+        vd = tu.node(sid) if sid else None
+        if vd is None or vd.get('kind') != 'VarDecl' or not re.search(r'ostringstream|stringstream', vd.get('type', {}).get('qualType', '')):
+            return None
+        toks = []
+        for b, i, x in g.stmts():
+            if x.get('kind') in ('CXXOperatorCallExpr', 'CXXMemberCallExpr') and tu.sd(x).get('q', '').split('::')[-1] == 'operator<<' \
+                    and self.stream_root(x) == sid:
+                c = self.classify(self.operand(x))
+                if c is None or c[0] not in ('lit', 'num', 'user'):
+                    return None
+                toks.append(c)
+        return toks
 
     def decl_of(self, e):
         """declaration a variable / member-of-this expression names"""
@@ -1618,6 +1663,8 @@ class JsonFlow:
             v = dict(st[6]).get('str:' + str(x.get('referencedDecl', {}).get('id')))
             if isinstance(v, str):
                 return ('lit', v)
+            if x.get('referencedDecl', {}).get('id') in self.strvals:
+                return ('tokens', self.strvals[x['referencedDecl']['id']])
         if k == 'StringLiteral':
             v = c_string(x.get('value'))
             return ('lit', v) if v is not None else None
@@ -1733,6 +1780,15 @@ class JsonFlow:
         if k == 'DeclStmt':
             for vd in n.get('inner', ()):
                 if isinstance(vd, dict) and vd.get('kind') == 'VarDecl' and tu.kids(vd) and \
+                        re.search(r'basic_string<char|std::string', vd.get('type', {}).get('qualType', '')):
+                    for y in tu.walk(tu.kids(vd)[0]):
+                        if y.get('kind') == 'CallExpr' and tu.callee_fn(y) is not None and tu.cfg(tu.callee_fn(y)) is not None and \
+                                not tu.sd(y).get('q', '').startswith('std::'):
+                            tk = self.string_tokens(tu.callee_fn(y))
+                            if tk is not None:
+                                self.strvals[vd['id']] = tk
+                            break
+                if isinstance(vd, dict) and vd.get('kind') == 'VarDecl' and tu.kids(vd) and \
                         re.match(r'^const char \*', vd.get('type', {}).get('qualType', '')):
                     lit = tu.strip(tu.kids(vd)[0], casts=True)
                     txt = c_string(lit.get('value')) if lit is not None and lit.get('kind') == 'StringLiteral' else None
@@ -1811,6 +1867,33 @@ class JsonFlow:
             if c is None:
                 self.undec.setdefault(tu.show(opnd) if opnd is not None else '?', n)
                 return [BAD]
+            if c[0] == 'tokens':
+                cur = [st]
+                for tk in c[1]:
+                    nxt = []
+                    for s_ in cur:
+                        if s_ == BAD:
+                            nxt.append(s_)
+                        elif tk[0] == 'lit':
+                            s2, err = json_text(s_, tk[1])
+                            if err:
+                                self.report(f, 'skeleton', 'emitting %r (part of the pre-formatted text `%s`) here: %s'
+                                            % (tk[1], tu.show(opnd), err), n, at, pred)
+                            nxt.append(s2)
+                        elif tk[0] == 'num':
+                            s2, err = json_number(s_)
+                            if err:
+                                self.report(f, 'skeleton', err, n, at, pred)
+                            nxt.append(s2)
+                        else:
+                            r_ = json_user(s_)
+                            if r_ is None:
+                                self.report(f, 'skeleton', 'run-time text inside `%s` is emitted outside a JSON string' % tu.show(opnd), n, at, pred)
+                                nxt.append(BAD)
+                            else:
+                                nxt.extend(r_)
+                    cur = list(dict.fromkeys(nxt))
+                return cur
             if c[0] in ('lit', 'alt'):
                 res = []
                 for text in c[1:]:
@@ -1867,8 +1950,19 @@ class JsonFlow:
                 if BAD in outs:
                     self.report(f, 'helper', 'the member function %s called here breaks the JSON skeleton' % callee0['q'], n, at, pred)
                 return list(outs) or [st]
+            if pos and k != 'CXXConstructExpr' and tu.sd(n).get('q', '').startswith('std::') and \
+                    tu.sd(n).get('q', '').split('::')[-1] in ('copyfmt', 'flags', 'precision', 'width', 'fill', 'getloc', 'rdstate',
+                                                               'good', 'fail', 'bad', 'eof', 'imbue', 'setf', 'unsetf'):
+                return [st]          # formatting state is read from / set on the stream: nothing is written
             if pos and k != 'CXXConstructExpr':
                 callee = tu.callee_fn(n)
+                if callee is not None and tu.cfg(callee) is not None:
+                    for p_, a_ in zip(callee.get('params', []), args0):
+                        a0_ = tu.strip(a_, casts=True)
+                        if a0_ is not None and a0_.get('kind') == 'StringLiteral' and c_string(a0_.get('value')) is not None:
+                            st = self.set_flag(st, 'str:' + p_['id'], c_string(a0_.get('value')))
+                        elif a0_ is not None and a0_.get('kind') == 'DeclRefExpr' and a0_.get('referencedDecl', {}).get('id') in self.strvals:
+                            self.strvals[p_['id']] = self.strvals[a0_['referencedDecl']['id']]
                 if callee is None or tu.cfg(callee) is None or depth >= 4 or pos[0] >= len(callee.get('params', [])):
                     self.undec.setdefault('the stream is handed to `%s`, whose body is not available' % tu.show(n), n)
                     return [BAD]
@@ -2051,7 +2145,8 @@ def check_savelog(ctx, tu):
     except Undecided as u:
         ctx.undecided(R, inst, str(u), tu.fn_loc(f))
         return
-    ctx.floor(R, len(jf.ops), 60, 'stream insertions into the log stream in saveLog (incl. the EventType inserter): 79 on the pinned tree')
+    ctx.floor(R, len(jf.ops), 20, 'stream insertions into the log stream that the automaton must have followed (brackets, the metadata, '
+              'event and counter records): 79 on the pinned tree; how many insertions a record is split into is incidental')
     for what, n in jf.undec.items():
         ctx.undecided(R, inst, 'emission `%s` is not classified' % what, tu.loc(n))
     for detail, (msg, n, fn, path) in jf.found.items():
@@ -3231,7 +3326,8 @@ def check_iteration(ctx, tu, f, R):
         if k == 'LambdaExpr':
             notes.append('a lambda inside saveLog is not followed')
             return
-        if k == 'VarDecl' and BEGIN_STACK_RX.search(n.get('type', {}).get('qualType', '')):
+        if k == 'VarDecl' and (BEGIN_STACK_RX.search(n.get('type', {}).get('qualType', '')) or
+                               BEGIN_STACK_RX.search(n.get('type', {}).get('desugaredQualType', ''))):
             stacks.append((n, list(lctx), fn))
         if k in ('CallExpr', 'CXXMemberCallExpr'):
             callee = tu.callee_fn(n)
